@@ -10,7 +10,15 @@ C10 - a rule that has just fixed a file has nothing left to fix (two exact neces
   C10.cycle    Rule.fix re-analyses before fixing, applies the fixes, splices them with one update() and
                clears the violations afterwards; every live rule with fixable True has a real
                _fix_violation below rule.Rule (shared with C03.gating).
-Does not decide: fix_r(fix_r(s)) == fix_r(s) on any input - idempotence is a run-time fixpoint property.
+  C10.caseidem idempotence of the ~250 rules built on case_utils, as a consequence of proved facts: (1) the value written
+               equals the old value modulo case (C03.caseid, re-proved here); (2) every decision of the checkers looks at
+               the value only through case-insensitive matchers (both sides lower-cased), so the same prefix / suffix
+               exception and the same branch are chosen for the written value; (3) the case transform g is lower or upper
+               (g(g(w)) == g(w)) or the identity; (4) the whole-word exception writes the configured spelling, which is then
+               a member of the list and compares equal.  Hence expected(expected(v)) == expected(v): a second fix writes
+               the same text, and what is still reported is what the rule cannot repair (camelCase & co. write the value
+               unchanged).
+Does not decide: fix_r(fix_r(s)) == fix_r(s) for the other rule families - idempotence is a run-time fixpoint property.
 """
 
 import ast
@@ -87,6 +95,7 @@ def run(ctx):
     r.load_table("c10.json")
     r.rule("C10.labels", "labels produced by analysis are handled by the fix's dispatch")
     r.rule("C10.cycle", "Rule.fix = analyse, fix each, one update, clear; fixable => real fix")
+    r.rule("C10.caseidem", "case_utils: expected(expected(v)) == expected(v) from value-identity, case-insensitive decisions and idempotent transforms (proof)")
     r.explanation = "Per rules module: constant action labels written vs the labels the fix-reachable functions of the same module compare against, with catch-all detection on each if-chain."
     fix_roots = [m for ci in p.classes.values() for name, m in ci.methods.items() if name == "_fix_violation" and ci.key != "vsg.rule:Rule"]
     reach = cg.reachable(fix_roots)
@@ -173,6 +182,7 @@ def run(ctx):
         r.fail("C10.cycle", fix.key + ":fix-not-in-loop", "_fix_violation is not applied to every violation", fix.loc(fv))
     if okc:
         r.ok("C10.cycle", fix.key, "analyse -> _fix_violation for each violation -> one update() -> clear_violations()")
+    _caseidem(r, p)
     # fixable => real fix
     nofix = [e for e in rt.live() if e.fixable is True and e.ci.find_method("_fix_violation").key == "vsg.rule:Rule._fix_violation"]
     for e in nofix:
@@ -182,7 +192,70 @@ def run(ctx):
     return r
 
 
+def _caseidem(r, p):
+    from .. import casefold as cf
+
+    mod = p.modules.get("vsg.rules.case_utils")
+    if mod is None:
+        raise AnalysisError("vsg.rules.case_utils vanished")
+    pr = cf.Prover(p, mod)
+    K = "vsg.rules.case_utils"
+    checkers, casefns = {}, {}
+    for st in mod.tree.body:
+        if isinstance(st, ast.Assign) and len(st.targets) == 1 and isinstance(st.targets[0], ast.Subscript) and isinstance(st.value, ast.Name):
+            t = norm(st.targets[0])
+            if t.startswith("dChecker["):
+                checkers[t] = st.value.id
+            elif t.startswith("dCase[") and t.endswith("['check']"):
+                casefns[t] = st.value.id
+    if len(checkers) < 4 or len(casefns) < 9:
+        raise AnalysisError("dispatch tables of case_utils not found")
+    ok = True
+    # (1) value identity
+    for name in sorted(set(checkers.values())):
+        res = cf.prove_checker(pr, pr.func(name))
+        bad = [t for o, t in res if not o]
+        if bad:
+            ok = False
+            r.fail("C10.caseidem", "%s:%s:value-identity" % (K, name), "the written value is not proved equal to the old value modulo case (%s): a second analysis may choose other exceptions and write something else" % bad[0][:120], pr.func(name).loc())
+    # (2) decisions through case-insensitive matchers only
+    for name, sh in sorted(pr.shapes.items()):
+        fi = pr.func(name)
+        if not cf.LOWERED.get(fi.key):
+            ok = False
+            r.fail("C10.caseidem", "%s:%s:case-sensitive" % (K, name), "%s compares the text case-sensitively: the value written by the fix can select a different exception than the value analysed, so a second fix may change it again" % name, fi.loc())
+    for name in sorted(set(checkers.values())):
+        fi = pr.func(name)
+        vname = fi.params[0]
+        for n in walk_function(fi.node):
+            if isinstance(n, (ast.If, ast.While)):
+                for c in ast.walk(n.test):
+                    if isinstance(c, ast.Compare) and any(isinstance(x, ast.Name) and x.id == vname for x in ast.walk(c)):
+                        ok = False
+                        r.fail("C10.caseidem", "%s:%s:%s" % (K, name, norm(c)[:40]), "%s branches on a direct comparison of the value (`%s`), not on a case-insensitive matcher" % (name, norm(c)[:50]), fi.loc(c))
+    # (3) idempotent transforms
+    for slot, name in sorted(casefns.items()):
+        kinds = cf.case_transform(pr.func(name))
+        if not kinds <= {"lower", "upper", "identity"} or ("lower" in kinds and "upper" in kinds and not any(isinstance(a, ast.Constant) and a.value is None for c in walk_function(pr.func(name).node) if isinstance(c, ast.Call) and norm(c.func) == "create_case_violation" for a in c.args[1:2])):
+            ok = False
+            r.fail("C10.caseidem", "%s:%s:transform" % (K, name), "%s builds the expected value with %s: not an idempotent case transform" % (name, sorted(kinds)), pr.func(name).loc())
+    # (4) whole-word exception
+    exc = pr.func("check_for_exception")
+    cef = pr.func("case_exception_found")
+    t1 = any(isinstance(n, ast.Compare) and len(n.ops) == 1 and isinstance(n.ops[0], ast.NotEq) and norm(n.comparators[0]).startswith("self.case_exceptions[") for n in walk_function(exc.node))
+    t2 = any(isinstance(n, ast.Compare) and len(n.ops) == 1 and isinstance(n.ops[0], ast.In) and norm(n.comparators[0]) == "self.case_exceptions" for n in walk_function(cef.node))
+    if not (t1 and t2):
+        ok = False
+        r.fail("C10.caseidem", K + ":whole-word-exception", "the whole-word exception no longer writes a spelling that is then found in the list and compares equal", exc.loc())
+    if ok:
+        r.ok("C10.caseidem", K, "%d checkers x %d case functions: expected(expected(v)) == expected(v)" % (len(set(checkers.values())), len(casefns)))
+
+
 VARIANTS = [
+    Variant("C10", "prefix exceptions matched case-sensitively", "fire",
+            [("vsg/rules/case_utils.py", "def get_matched_prefix(sString, lPrefixes):\n    sLowerString = sString.lower()\n    for sPrefix in lPrefixes:\n        if sLowerString.startswith(sPrefix.lower()):\n            return sPrefix", "def get_matched_prefix(sString, lPrefixes):\n    for sPrefix in lPrefixes:\n        if sString.startswith(sPrefix):\n            return sPrefix")], rule="C10.caseidem"),
+    Variant("C10", "lower-case checker capitalises the word", "fire",
+            [("vsg/rules/case_utils.py", "    sExpectedValue = sPrefix + sWord.lower() + sSuffix\n    if not sActualValue == sExpectedValue:", "    sExpectedValue = sPrefix + sWord.swapcase() + sSuffix\n    if not sActualValue == sExpectedValue:")], rule="C10.caseidem"),
     Variant("C10", "analysis emits a label the fix does not know", "fire",
             [("vsg/rules/blank_line_below_line_ending_with_token.py", '        dAction["action"] = "Remove"', '        dAction["action"] = "Delete"')], rule="C10.labels"),
     Variant("C10", "update inside the per-violation loop", "fire",
